@@ -257,6 +257,63 @@ example : ∃ (s : St) (e : Ent) (r : Rec) (d : Digest) (o : Obj), s.findEnt ⟨
     { path := ⟨0, 1⟩, md := .stamp 1, digests := [⟨0, [104]⟩], method := .copy, tob := .auto }, ⟨0, [104]⟩, ⟨[104], true, 1⟩,
     by decide, by decide, by decide, by decide, by decide⟩
 
+/-! ### Links into the cache are not content (repair F31, formerly known finding K10)
+
+    With the symlink recheck method the workspace entry of a tracked path is a link to its cache object.
+    `carry-in --force` used to remove the object and then rename the (now dangling) link onto the cache address;
+    a change of the text/binary mode renamed the link onto the NEW address.  Since the repair a link to the object
+    itself is only re-materialised, and any other link is dereferenced: the bytes are copied to the new address. -/
+
+/-- `--force` (or not) on a path that is a link to the cached copy at the address itself: the cache is untouched -
+    the object is still there, bit for bit - and the path is materialised again by the method. -/
+theorem C04_force_on_link_keeps_object (s : St) (p : Path) (a : Addr) (m : Method) (force : Bool) (o : Obj)
+    (hl : s.ws p = some (.sym a)) (ho : s.cache a = some o) :
+    (s.carryOne p a m force).1.cache = s.cache ∧ (s.carryOne p a m force).2 = .ok ∧
+    ∃ k, (s.carryOne p a m force).1.readThrough p = some (o.b, k) := by
+  have hlt : s.linksTo p a = true := by simp [St.linksTo, hl, ho]
+  unfold St.carryOne
+  simp only [hlt, if_true]
+  have ho' : (s.setWs p none).cache a = some o := ho
+  have hp : ((s.setWs p none).ws p).isSome → ((s.setWs p none).readThrough p).isSome := by
+    intro h; simp [St.setWs] at h
+  obtain ⟨h1, _, h3, h4⟩ := C17_method_materialises (s.setWs p none) p a o m ho' hp
+  exact ⟨by rw [h4]; rfl, h1, h3⟩
+
+/-- A link to ANOTHER object (the address changes, e.g. because the text/binary mode changes): the bytes the link
+    points to are copied to the new address as a regular read-only object; the object the link pointed to stays. -/
+theorem C04_link_is_dereferenced (s : St) (p : Path) (a a' : Addr) (o : Obj)
+    (hl : s.ws p = some (.sym a')) (ho : s.cache a' = some o) (hne : a ≠ a') :
+    (s.moveToCache p a).2 = .ok ∧ (∃ st, (s.moveToCache p a).1.cache a = some ⟨o.b, true, st⟩) ∧
+    (s.moveToCache p a).1.cache a' = some o ∧ (s.moveToCache p a).1.ws p = none := by
+  have hd : s.deref p = (s.setWs p (some (.file o.b true s.clock none))).tick := by
+    simp [St.deref, hl, ho]
+  unfold St.moveToCache
+  rw [hd]
+  have hw : ((s.setWs p (some (.file o.b true s.clock none))).tick).ws p = some (.file o.b true s.clock none) := by
+    show upd s.ws p _ p = _
+    simp
+  simp only [hw]
+  refine ⟨trivial, ⟨s.clock, ?_⟩, ?_, ?_⟩
+  · show upd _ a _ a = _
+    simp
+  · show upd _ a _ a' = _
+    rw [upd_other _ _ (Ne.symm hne)]
+    exact ho
+  · show upd _ p none p = none
+    simp
+
+/-- before the repair (NOT the code any more): the link itself was renamed onto the address after `--force` had
+    removed the object there - the only copy of the bytes is gone -/
+theorem C04_force_on_link_lost_object_before_fix :
+    let s : St := ((St.init.userWrite ⟨0, 1⟩ [104]).track {} { method := some .symlink } [⟨0, 1⟩]).1
+    let a : Addr := addrOf ⟨0, 1⟩ ⟨0, [104]⟩
+    s.ws ⟨0, 1⟩ = some (.sym a) ∧ (s.cache a).isSome = true ∧
+    -- old first phase: detach + remove the object, then rename the link onto the address
+    ((({ (s.detach a).setCache a none with dirRo := upd s.dirRo a.d false } : St).setWs ⟨0, 1⟩ none).setCache a none).cache a = none ∧
+    -- the repaired procedure
+    ((s.carryOne ⟨0, 1⟩ a .symlink true).1.cache a).isSome = true := by
+  decide
+
 end Repo
 
 open Repo in
@@ -281,3 +338,9 @@ open Repo in
 #print axioms C04_restore_versions_complete
 open Repo in
 #print axioms C04_restore_versions_witness
+open Repo in
+#print axioms C04_force_on_link_keeps_object
+open Repo in
+#print axioms C04_link_is_dereferenced
+open Repo in
+#print axioms C04_force_on_link_lost_object_before_fix
